@@ -74,7 +74,8 @@ class Check(PropertyCheck):
             s2 = self.rng.choice([s for s in SCALES if s != s1])
             pairs.append((s1, s2))
             lines.append("%da settings scale=%s,b=1,s=0,d=0 %s" % (i, backend.f32bits(s1), hx(t)))
-            lines.append("%db settings scale=%s,b=1,s=0,d=0 %s" % (i, backend.f32bits(s2), hx(t)))
+            # every third second rendering comes from a CellBuffer that was rendered at other scales before ("reuse")
+            lines.append("%db %s scale=%s,b=1,s=0,d=0 %s" % (i, "reuse" if i % 3 == 1 else "settings", backend.f32bits(s2), hx(t)))
         res = common.run_impl("lib", lines)
         for i, t in enumerate(texts):
             self.evaluations += 1
